@@ -61,6 +61,7 @@ type goroutine struct {
 type Event struct {
 	Kind string
 	Args []string
+	Tid  int
 }
 
 type Obligation struct {
@@ -92,6 +93,15 @@ type Interp struct {
 	extGlobals map[string]Value
 	summaries  map[string]bool
 	initDone   bool
+
+	schedFork     bool
+	schedLevel    int
+	preemptBudget int
+	tracked       map[*Value]string
+	threads []*thread
+	cur     *thread
+	yield   chan yieldMsg
+	runq    []int
 
 	roCells     map[*Value]bool
 	crashes     []*targetPanic
@@ -407,6 +417,11 @@ func copyVal(v Value) Value {
 }
 
 func (in *Interp) load(p *Value) Value {
+	if in.tracked != nil {
+		if name, ok := in.tracked[p]; ok {
+			in.emit("rd", name, valRepr(*p))
+		}
+	}
 	v := *p
 	if lz, ok := v.(*lazyKid); ok {
 		v = lz.materialise(in)
@@ -417,6 +432,75 @@ func (in *Interp) load(p *Value) Value {
 
 func (in *Interp) store(p *Value, v Value) {
 	*p = copyVal(v)
+	if in.tracked != nil {
+		if name, ok := in.tracked[p]; ok {
+			in.emit("wr", name, valRepr(*p))
+		}
+	}
+}
+
+// valRepr is a comparable rendering of a stored value (read-from matching).
+func valRepr(v Value) string {
+	switch x := v.(type) {
+	case nil:
+		return "nil"
+	case bool, Int, float64:
+		return fmt.Sprint(x)
+	case *Value:
+		return fmt.Sprintf("%p", x)
+	case Iface:
+		if x.T == nil {
+			return "nil"
+		}
+		return x.T.String() + ":" + valRepr(x.V)
+	case *Obj:
+		return x.String()
+	case Str:
+		return x.key()
+	case Slice:
+		return fmt.Sprintf("slice(%p,%d,%d)", x.arr, x.off, x.n)
+	case *Map:
+		return fmt.Sprintf("%p", x)
+	case *Term:
+		return fmt.Sprintf("t%d", x.id)
+	case *Closure:
+		return fmt.Sprintf("%p", x)
+	case *NativeFunc:
+		return fmt.Sprintf("%p", x)
+	}
+	return fmt.Sprintf("%T", v)
+}
+
+// trackStruct registers the field cells of the struct at p (nested structs
+// included, not followed through pointers) for rd/wr event recording.
+func (in *Interp) trackStruct(p *Value, name string, t types.Type) {
+	if in.tracked == nil {
+		in.tracked = map[*Value]string{}
+	}
+	var st *types.Struct
+	if pt, ok := t.Underlying().(*types.Pointer); ok {
+		st, _ = pt.Elem().Underlying().(*types.Struct)
+	} else {
+		st, _ = t.Underlying().(*types.Struct)
+	}
+	s, ok := (*p).(Struct)
+	if !ok || st == nil {
+		in.tracked[p] = name
+		return
+	}
+	for i := range s {
+		fn := name + "." + st.Field(i).Name()
+		ft := st.Field(i).Type()
+		// sync primitives are modelled by their own events
+		if strings.HasPrefix(ft.String(), "sync.") {
+			continue
+		}
+		if _, isStruct := ft.Underlying().(*types.Struct); isStruct {
+			in.trackStruct(&s[i], fn, ft)
+			continue
+		}
+		in.tracked[&s[i]] = fn
+	}
 }
 
 // ------------------------------------------------------------------
